@@ -1,7 +1,6 @@
 package c15
 
 import (
-	"os"
 	"bytes"
 	"encoding/json"
 	"fmt"
@@ -1213,10 +1212,7 @@ func exec(spec string) (res engine.Result) {
 		}
 		return
 	}
-	min, mv := cr, v
-	if os.Getenv("C15_NOREDUCE") == "" {
-		min, mv = cr.reduce(v)
-	}
+	min, mv := cr.reduce(v)
 	detail := v.detail
 	if min != cr {
 		detail = "reduced: " + mv.detail + " || original: " + v.detail
